@@ -33,8 +33,8 @@ Record tstate := { up_name : str; up_active : bool }.
 Definition tstate0 : tstate := {| up_name := []; up_active := false |}.
 
 (* flags: [f19] = ConvertPath refuses ".." components and names without leading '/' (the tree since
-   9f956a4); [fstale] = the name of a refused upload request is not left behind in fName (proposed
-   notes/fix_C19_3.diff; false = the tree) *)
+   9f956a4); [fstale] = the name of a refused upload request is not left behind in fName (the tree
+   since fix commit 7654ac8; false = the flow before it, kept as regression variant) *)
 Record tvariant := { f19 : bool; fstale : bool }.
 
 Definition conv (v : tvariant) (root name : str) : option str :=
